@@ -216,6 +216,12 @@ func runC18(c runner.Case, env *runner.Env) (res runner.Result) {
 	if p.Kind == "missingdbi" {
 		localDBIs = p.FailDBI // DBIs from FailDBI on do not exist locally
 	}
+	if p.Kind == "versions" && p.Native && p.NDBI >= 2 && (p.Format == 0 || p.Compat > 3) {
+		// a refused snapshot that would introduce a DBI this instance does not have: the refusal must not leave the
+		// DBI (or a transaction) behind (seed C18j)
+		localDBIs = p.NDBI - 1
+		res.Count("refused_snapshots_introducing_a_new_dbi", 1)
+	}
 	_, err = lmdbx.Update(x.Env, func(txn *lmdb.Txn) error {
 		for d := 0; d < localDBIs; d++ {
 			for i := 0; i < entriesPerDBI; i += 2 {
